@@ -36,26 +36,19 @@ theorem parseIdentifier_total (L : Lib) (id pfx : Str) :
 theorem setRevisionNumber_total (L : Lib) (hs : L.SplitNonEmpty) (s : Str) (r : Nat) :
     G.NoPanic (setRevisionNumber L s r) := setRevisionNumber_noPanic L hs s r
 
-/-- full statement for `ParseChainID` (reached from `tendermint.ClientState.Validate`, hence from
-    `MsgCreateClient.ValidateBasic`, and from `tendermint.Header.ValidateBasic` via `GetHeight`) -/
-def parseChainID_total_full : Prop := ∀ s : Str, G.NoPanic (parseChainID Lib.go s)
+/-- `ParseChainID` never panics.  It is reached from `tendermint.ClientState.Validate` (hence
+    `MsgCreateClient.ValidateBasic`) and from `tendermint.Header.GetHeight` (hence `Header` /
+    `Misbehaviour.ValidateBasic`).  Before fix 011a55d this was false of the code: `IsRevisionFormat`
+    (`^.*[^\n-]-{1}[1-9][0-9]*$`) puts no bound on the digits, `strconv.ParseUint` fails above
+    2^64−1 and the function called `panic`; the witness chain id "a-99999999999999999999" is kept as
+    a regression input of the harness (it must now give revision 0). -/
+theorem parseChainID_total (L : Lib) (hs : L.SplitNonEmpty) (s : Str) :
+    G.NoPanic (parseChainID L s) := parseChainID_noPanic L hs s
 
-/-- It is false of the code: `IsRevisionFormat` (`^.*[^\n-]-{1}[1-9][0-9]*$`) puts no bound on the
-    number of digits, `strconv.ParseUint` fails above 2^64−1 and the function then calls `panic`.
-    Witness: chain id "a-99999999999999999999" (replayed on the real code by the harness, finding
-    key `parse-chain-id-overflow`). -/
-theorem parseChainID_total_full_false : ¬ parseChainID_total_full := by
-  intro h
-  have := (G.noPanic_iff _).mp (h ['a', '-', '9', '9', '9', '9', '9', '9', '9', '9', '9', '9', '9', '9', '9', '9', '9', '9', '9', '9', '9', '9'])
-  revert this
+/-- the former witness now evaluates to revision 0 -/
+theorem parseChainID_overflow_is_zero :
+    parseChainID Lib.go ['a', '-', '9', '9', '9', '9', '9', '9', '9', '9', '9', '9', '9', '9', '9', '9', '9', '9', '9', '9', '9', '9'] = .ok 0 := by
   decide
-
-/-- … and it panics *only* then: `ParseChainID` is panic-free exactly when the chain id is not in
-    revision format or its last '-'-segment parses as a uint64 -/
-theorem parseChainID_total_partial (L : Lib) (hs : L.SplitNonEmpty) (s : Str) :
-    G.NoPanic (parseChainID L s) ↔
-      (L.isRevisionFormat s = true → ∃ seg n, lastSeg L s = some seg ∧ L.parseUint seg = some n) :=
-  parseChainID_noPanic_iff L hs s
 
 /-! ## store-path and key parsers -/
 
